@@ -100,6 +100,40 @@ impl StaticSchemaMarker for St2 {
     }
 }
 
+struct St3 {
+    name: StringHandle,
+    strs: Vec<StringHandle>,
+}
+
+impl StaticSchemaMarker for St3 {
+    const UNIQUE_MARKER_TYPE_NAME: &'static str = "St3";
+    const FIELDS: &'static [StaticSchemaMarkerField] = &[
+        fld("f0", MarkerFieldFormat::FilePath),
+        fld("f1", MarkerFieldFormat::String),
+        fld("f2", MarkerFieldFormat::Seconds),
+        fld("f3", MarkerFieldFormat::SanitizedString),
+        fld("f4", MarkerFieldFormat::Decimal),
+    ];
+    fn name(&self, _p: &mut Profile) -> StringHandle {
+        self.name
+    }
+    fn string_field_value(&self, i: u32) -> StringHandle {
+        match i {
+            0 => self.strs[0],
+            1 => self.strs[1],
+            3 => self.strs[2],
+            _ => unreachable!(),
+        }
+    }
+    fn number_field_value(&self, i: u32) -> f64 {
+        match i {
+            2 => 0.25,
+            4 => 7.5,
+            _ => unreachable!(),
+        }
+    }
+}
+
 /// formats of the static schemas, in the alphabet of the `mtype` op: u = unique-string,
 /// s = other string kind, n = number
 pub use verif_harness::gen::c03_ops::STATIC_FORMATS;
@@ -270,7 +304,39 @@ fn addr_kind(s: &str) -> Option<()> {
 
 /// number of string-kind fields of a format word
 fn string_fields(fmt: &str) -> usize {
-    fmt.chars().filter(|c| *c == 'u' || *c == 's').count()
+    fmt.chars().filter(|c| c03_gen::is_string_format(*c)).count()
+}
+
+/// the `MarkerFieldFormat` of a format letter of the `mtype` op (all 14 variants)
+fn field_format(ch: char) -> Option<MarkerFieldFormat> {
+    use MarkerFieldFormat::*;
+    Some(match ch {
+        'u' => String,
+        'U' | 's' => Url,
+        'P' => FilePath,
+        'Z' => SanitizedString,
+        'D' => Duration,
+        'T' => Time,
+        'S' => Seconds,
+        'M' => Milliseconds,
+        'C' => Microseconds,
+        'N' => Nanoseconds,
+        'B' => Bytes,
+        'p' => Percentage,
+        'i' | 'n' => Integer,
+        'd' => Decimal,
+        _ => return None,
+    })
+}
+
+/// `st:k[:tm]` / `rt:reg[:tm]` -> (tag, argument, timing letter)
+fn mtype_tok(s: &str) -> Option<(&str, &str, &str)> {
+    let p: Vec<&str> = s.split(':').collect();
+    match p.len() {
+        2 => Some((p[0], p[1], "i")),
+        3 if matches!(p[2], "i" | "v" | "s" | "e") => Some((p[0], p[1], p[2])),
+        _ => None,
+    }
 }
 
 pub fn check_program(ops: &[String]) -> Option<()> {
@@ -450,13 +516,13 @@ pub fn check_program(ops: &[String]) -> Option<()> {
                 unhex_str(w[2])?;
                 c.is(w[3], Kind::Cat)?;
                 let f = if w[4] == "-" { "" } else { w[4] };
-                f.chars().all(|ch| matches!(ch, 'u' | 's' | 'n')).then_some(())?;
+                f.chars().all(|ch| field_format(ch).is_some()).then_some(())?;
                 c.def(w[1], Kind::MType)?;
                 c.formats.insert(w[1].to_string(), f.to_string());
             }
             ("marker", n) if n >= 5 => {
                 c.is(w[2], Kind::Thread)?;
-                let (tag, rest) = w[3].split_once(':')?;
+                let (tag, rest, _tm) = mtype_tok(w[3])?;
                 let fmt = match tag {
                     "st" => STATIC_FORMATS.get(num(rest)? as usize)?.to_string(),
                     "rt" => {
@@ -844,11 +910,7 @@ impl Exec {
                     .map(|(i, ch)| RuntimeSchemaMarkerField {
                         key: format!("f{i}"),
                         label: "l".into(),
-                        format: match ch {
-                            'u' => MarkerFieldFormat::String,
-                            's' => MarkerFieldFormat::Url,
-                            _ => MarkerFieldFormat::Integer,
-                        },
+                        format: field_format(ch).unwrap_or(MarkerFieldFormat::Integer),
                         flags: MarkerFieldFlags::empty(),
                     })
                     .collect();
@@ -874,14 +936,21 @@ impl Exec {
                 for s in &w[5..] {
                     strs.push(self.string(s)?);
                 }
-                let timing = MarkerTiming::Instant(ts(1));
-                let (tag, rest) = w[3].split_once(':')?;
+                let (tag, rest, tm) = mtype_tok(w[3])?;
+                let timing = match tm {
+                    "v" => MarkerTiming::Interval(ts(1), ts(3)),
+                    "s" => MarkerTiming::IntervalStart(ts(2)),
+                    "e" => MarkerTiming::IntervalEnd(ts(4)),
+                    _ => MarkerTiming::Instant(ts(1)),
+                };
+                stats.bump(&format!("marker_timing_{tm}"));
                 let h = if tag == "st" {
                     stats.bump("markers_static_schema");
                     match num(rest)? {
                         0 => self.p.add_marker(t, timing, St0 { name, strs }),
                         1 => self.p.add_marker(t, timing, St1 { name, strs }),
-                        _ => self.p.add_marker(t, timing, St2 { name }),
+                        2 => self.p.add_marker(t, timing, St2 { name }),
+                        _ => self.p.add_marker(t, timing, St3 { name, strs }),
                     }
                 } else {
                     stats.bump("markers_runtime_schema");
@@ -890,7 +959,10 @@ impl Exec {
                         _ => return None,
                     };
                     let mut it = strs.into_iter();
-                    let strs = fmt.chars().map(|ch| if ch == 'n' { None } else { it.next() }).collect();
+                    for ch in fmt.chars() {
+                        stats.bump(&format!("marker_field_format_{ch}"));
+                    }
+                    let strs = fmt.chars().map(|ch| if c03_gen::is_string_format(ch) { it.next() } else { None }).collect();
                     self.p.add_marker(t, timing, RtMarker { ty, name, strs })
                 };
                 self.set(w[1], Val::Marker(h));
@@ -1112,6 +1184,16 @@ fn dump(json: &Value, out: &mut Vec<String>, stats: &mut Stats) {
             }
         }
         out.push(format!("MK.stack {}", stk.join(" ")).trim_end().to_string());
+        // startTime / endTime: `None` is serialized as 0.0 (serialization_helpers.rs:25), a stored time as its value in
+        // ms; the harness only passes non-zero times, so "non-zero" = "a time was stored".  phase: the number
+        for (tag, key) in [("MK.start", "startTime"), ("MK.end", "endTime")] {
+            let c = match arr(mk, key) {
+                Some(a) => a.iter().map(|v| match v.as_f64() { Some(x) if x == 0.0 => "0", Some(_) => "1", None => "?" }).collect::<Vec<_>>().join(" "),
+                None => "missing".into(),
+            };
+            out.push(format!("{tag} {c}").trim_end().to_string());
+        }
+        out.push(format!("MK.phase {}", col(mk, "phase")).trim_end().to_string());
         out.push(format!("MK.ustr {}", ustr.join(" ")).trim_end().to_string());
     }
 }
